@@ -100,3 +100,39 @@ pub open spec fn d6_class(s: Seq<u8>, t: UriElement) -> bool { !is_query(t) && !
         res is Err ==> res->Err_0 is MalformedQueryString, //# C10 C13 name=error_kind
         res is Ok ==> all_ascii(str_bytes(res->Ok_0@)), //# C08 name=ascii_output
 //@ end
+
+//@ fn canonical.rs normalize_header_value
+//@ props C08 C11 C02
+//@ ret res
+//@ spec
+    ensures
+        res@ == collapse_trim(value@), //# C11 C02 name=collapse_trim
+        header_normal(res@), //# C11 name=no_leading_trailing_double_space
+//@ loop 1 iter it
+        invariant
+            collapse(value@, 0, true) == result@ + collapse(value@, it.index as int, last_was_space), //# C11 name=collapse_prefix
+            no_double_space(result@),
+            result@.len() > 0 ==> result@[0] != 0x20,
+            result@.len() > 0 ==> (last_was_space <==> result@.last() == 0x20),
+            result@.len() == 0 ==> last_was_space,
+//@ loop 2
+            invariant
+                rstrip(result@) == collapse_trim(value@), //# C11 name=rstrip_prefix
+                no_double_space(result@),
+                result@.len() > 0 ==> result@[0] != 0x20,
+            decreases result@.len(),
+//@ end
+
+/// Latin-1: every byte is the code point of the same number
+pub open spec fn latin1(b: Seq<u8>) -> Seq<char> { Seq::new(b.len(), |i: int| b[i] as char) }
+
+//@ fn canonical.rs latin1_to_string
+//@ props C08 C19 C05
+//@ ret r
+//@ spec
+    ensures r@ == latin1(bytes@), //# C19 C05 C16 name=latin1
+//@ loop 1 iter it
+        invariant result@ == latin1(bytes@.subrange(0, it.index as int)),
+//@ after 1 `result.push(*b as char);`
+        proof { assert(result@ =~= latin1(bytes@.subrange(0, it.index + 1))); }
+//@ end
